@@ -317,7 +317,15 @@ func (f *Frame) applyContract(x ssa.Value, fc *FuncContract, fn *ssa.Function, k
 	e.usedContracts[key] = true
 	pre := st.clone()
 	env := &Env{enc: e, frame: f, vars: vars, st: pre, old: pre, res: e.prog.resolver(fc.PkgPath, e.importsFor(fc)), fc: fc}
-	// requires
+	// lets over the pre-state, then requires
+	for _, l := range fc.Lets {
+		if letUsesResults(l, fc) {
+			continue
+		}
+		if err := env.bindLet(l); err != nil {
+			e.errorf("%s: let in contract of %s: %v", f.prefix, key, err)
+		}
+	}
 	var reqs []string
 	for _, r := range fc.Requires {
 		g, err := env.evalBool(r.E)
@@ -358,7 +366,7 @@ func (f *Frame) applyContract(x ssa.Value, fc *FuncContract, fn *ssa.Function, k
 		}
 	}
 	post := &Env{enc: e, frame: f, vars: map[string]*Val{}, st: st, old: pre, res: env.res, fc: fc}
-	for k, v := range vars {
+	for k, v := range env.vars {
 		post.vars[k] = v
 	}
 	for i, v := range vals {
@@ -367,6 +375,9 @@ func (f *Frame) applyContract(x ssa.Value, fc *FuncContract, fn *ssa.Function, k
 		}
 	}
 	for _, l := range fc.Lets {
+		if !letUsesResults(l, fc) {
+			continue
+		}
 		if err := post.bindLet(l); err != nil {
 			e.errorf("%s: let in contract of %s: %v", f.prefix, key, err)
 		}
